@@ -61,6 +61,7 @@ type Choices struct {
 	TEIDBase       uint32
 	WithAMBR       bool
 	NoConfigUpdate bool // observation-only scenario: the AMF sends nothing after Registration Complete
+	AfterRegMsg    int  // what the AMF sends after Registration Complete: 0 Configuration Update Command (as Open5GS / free5GC), 1 LOCATION REPORTING CONTROL, 2 UE RADIO CAPABILITY CHECK REQUEST, 3 TRACE START-less: DEACTIVATE TRACE, 4 AMF STATUS INDICATION-free: ERROR INDICATION
 	BackupAMFName  bool
 }
 
@@ -904,9 +905,99 @@ func (a *AMF) maybeRegistered(ue *ueCtx) {
 		a.observe("no-message-after-registration-complete")
 		return
 	}
+	if a.Ch.AfterRegMsg != 0 && a.sendOtherAfterRegistration(ue) {
+		return
+	}
 	cuc := []byte{0x7e, 0x00, 0x54, 0x43, 0x05, 0x80, 0x41, 0x4d, 0x46, 0x31}
 	prot, c := a.protectDL(ue, 2, cuc)
 	a.downNAS(ue, prot, "ConfigurationUpdateCommand", "after-registration-complete", 2, c)
+}
+
+// sendOtherAfterRegistration: a conformant AMF is not obliged to follow the registration with a Configuration Update
+// Command; the next thing it sends on the association may be any AMF-initiated message for this UE. The emulator waits
+// for one message there and ignores its content.
+func (a *AMF) sendOtherAfterRegistration(ue *ueCtx) bool {
+	var pdu ngapType.NGAPPDU
+	pdu.Present = 1
+	im := &ngapType.InitiatingMessage{}
+	pdu.InitiatingMessage = im
+	name := ""
+	switch a.Ch.AfterRegMsg {
+	case 1:
+		name = "LocationReportingControl"
+		im.ProcedureCode.Value, im.Criticality.Value = ngapType.ProcedureCodeLocationReportingControl, 1
+		m := &ngapType.LocationReportingControl{}
+		add := func(id int64, crit uint64, f func(v *ngapType.LocationReportingControlIEsValue)) {
+			ie := ngapType.LocationReportingControlIEs{}
+			ie.Id.Value, ie.Criticality.Value = id, aper.Enumerated(crit)
+			f(&ie.Value)
+			m.ProtocolIEs.List = append(m.ProtocolIEs.List, ie)
+		}
+		add(10, 0, func(v *ngapType.LocationReportingControlIEsValue) {
+			v.Present = 1
+			v.AMFUENGAPID = &ngapType.AMFUENGAPID{Value: ue.amf}
+		})
+		add(85, 0, func(v *ngapType.LocationReportingControlIEsValue) {
+			v.Present = 2
+			v.RANUENGAPID = &ngapType.RANUENGAPID{Value: ue.ran}
+		})
+		add(33, 1, func(v *ngapType.LocationReportingControlIEsValue) {
+			v.Present = 3
+			v.LocationReportingRequestType = &ngapType.LocationReportingRequestType{}
+			v.LocationReportingRequestType.EventType.Value = 0
+			v.LocationReportingRequestType.ReportArea.Value = 0
+		})
+		im.Value.Present = ngapType.InitiatingMessagePresentLocationReportingControl
+		im.Value.LocationReportingControl = m
+	case 2:
+		name = "UERadioCapabilityCheckRequest"
+		im.ProcedureCode.Value, im.Criticality.Value = ngapType.ProcedureCodeUERadioCapabilityCheck, 0
+		m := &ngapType.UERadioCapabilityCheckRequest{}
+		add := func(id int64, crit uint64, f func(v *ngapType.UERadioCapabilityCheckRequestIEsValue)) {
+			ie := ngapType.UERadioCapabilityCheckRequestIEs{}
+			ie.Id.Value, ie.Criticality.Value = id, aper.Enumerated(crit)
+			f(&ie.Value)
+			m.ProtocolIEs.List = append(m.ProtocolIEs.List, ie)
+		}
+		add(10, 0, func(v *ngapType.UERadioCapabilityCheckRequestIEsValue) {
+			v.Present = 1
+			v.AMFUENGAPID = &ngapType.AMFUENGAPID{Value: ue.amf}
+		})
+		add(85, 0, func(v *ngapType.UERadioCapabilityCheckRequestIEsValue) {
+			v.Present = 2
+			v.RANUENGAPID = &ngapType.RANUENGAPID{Value: ue.ran}
+		})
+		im.Value.Present = ngapType.InitiatingMessagePresentUERadioCapabilityCheckRequest
+		im.Value.UERadioCapabilityCheckRequest = m
+	case 3:
+		name = "DeactivateTrace"
+		im.ProcedureCode.Value, im.Criticality.Value = ngapType.ProcedureCodeDeactivateTrace, 1
+		m := &ngapType.DeactivateTrace{}
+		add := func(id int64, crit uint64, f func(v *ngapType.DeactivateTraceIEsValue)) {
+			ie := ngapType.DeactivateTraceIEs{}
+			ie.Id.Value, ie.Criticality.Value = id, aper.Enumerated(crit)
+			f(&ie.Value)
+			m.ProtocolIEs.List = append(m.ProtocolIEs.List, ie)
+		}
+		add(10, 0, func(v *ngapType.DeactivateTraceIEsValue) {
+			v.Present = 1
+			v.AMFUENGAPID = &ngapType.AMFUENGAPID{Value: ue.amf}
+		})
+		add(85, 0, func(v *ngapType.DeactivateTraceIEsValue) {
+			v.Present = 2
+			v.RANUENGAPID = &ngapType.RANUENGAPID{Value: ue.ran}
+		})
+		add(44, 1, func(v *ngapType.DeactivateTraceIEsValue) {
+			v.Present = 3
+			v.NGRANTraceID = &ngapType.NGRANTraceID{Value: []byte{1, 2, 3, 4, 5, 6, 7, 8}}
+		})
+		im.Value.Present = ngapType.InitiatingMessagePresentDeactivateTrace
+		im.Value.DeactivateTrace = m
+	default:
+		return false
+	}
+	a.down(ue.ran, name, "after-registration-complete", pdu, "", 0, -1)
+	return true
 }
 
 // sendICSRequest sends INITIAL CONTEXT SETUP REQUEST with Registration Accept (or Service Accept).
